@@ -32,8 +32,14 @@ def use_repo() -> None:
     os.environ.setdefault('FLIPJUMP_VERIF', '1')
 
 
+def run_root() -> Path:
+    """everything one ./check invocation (and its pool workers / replay children) writes outside /verif lives under this
+    directory; the invocation removes it when it ends"""
+    return Path('/var/tmp') / f"fjv-run-{os.environ.get('FJV_RUN', os.getpid())}"
+
+
 def scratch_dir(tag: str) -> Path:
-    d = Path('/var/tmp') / f'fjv-{os.getpid()}-{tag}'
+    d = run_root() / f'{os.getpid()}-{tag}'
     d.mkdir(parents=True, exist_ok=True)
     return d
 
